@@ -1100,7 +1100,7 @@ def tril(m, *args, **kwargs):
 @implements(np.einsum)
 def einsum(*operands, out=None, **kwargs):
     subscripts, *operands = operands
-    ret_units = _validate_units_consistency(operands)
+    ret_units = np.prod(get_units(operands))
 
     if out is not None:
         out_view = np.asarray(out)
